@@ -185,4 +185,72 @@ def OutColWF {α : Type} (col : List (Out α)) : Prop :=
     ∀ o ∈ col, ∀ n, o = .node n → n.map (fun x => (x.1, x.2.1)) = n0.map (fun x => (x.1, x.2.1))
   | _ => True
 
+/-! ### scan -/
+
+/-- what iteration `i` sees of a Variable with axis `a`: the slice of its *original* value along the axis, its original
+value if broadcast, the value the previous iteration left if carried -/
+def scanValIn {α : Type} [Inhabited α] (store cur : Store α) (i : Nat) (a : Ax) (id : VarId) : Except Err (Arr α) :=
+  match a with
+  | .axis k => bindX (store.getX id) (fun v => liftL (takeAt k i v))
+  | .bcast => store.getX id
+  | .carry => cur.getX id
+
+def scanEntryIn {α : Type} [Inhabited α] (store cur : Store α) (i : Nat) (ep : Entry × Prefix) :
+    Except Err (VarId × Arr α) :=
+  bindX (ep.2.at ep.1) fun a => bindX (scanValIn store cur i a ep.1.id) fun v => .ok (ep.1.id, v)
+
+/-- what iteration `i` sees of an array argument: its slice, itself, or the array carry -/
+def scanArrIn {α : Type} [Inhabited α] (carr : Option (Arr α)) (i : Nat) (pa : Prefix × Arr α) : Except Err (Arr α) :=
+  match pa.1 with
+  | .ax (.axis k) => liftL (takeAt k i pa.2)
+  | .ax .bcast => .ok pa.2
+  | .ax .carry => .ok (carr.getD pa.2)
+  | .sa _ => .error .stateAxesOnArray
+
+/-- **one iteration of the reference loop**: state = (array carry, the values the previous iteration left in the
+Variables — only those of carried Variables are read) -/
+def scanStepSpec {α : Type} [Inhabited α] (body : Body α) (ca : CarryArg) (cout : CarryPos) (outPs : List Prefix)
+    (store : Store α) (pas : List (Prefix × Arg α)) (st : Option (Arr α) × Store α) (i : Nat) :
+    Except Err ((Option (Arr α) × Store α) × (Store α × List (Out α))) :=
+  bindX (mapX (scanEntryIn store st.2 i) (ownedAll pas [])) fun ins =>
+  bindX (mapX (scanArrIn st.1 i) (arrArgs pas)) fun arrs =>
+  bindX (body ins arrs) fun r =>
+  bindX (checkCarryRefs ca ((carryOutIdx cout).bind (fun k => r.2[k]?))) fun cArr =>
+  if outPs.length ≠ (dropCarry (carryOutIdx cout) r.2).length then .error .prefixArity else
+  .ok ((cArr, r.1), (r.1, dropCarry (carryOutIdx cout) r.2))
+
+/-- the value a Variable ends with after the loop: the stack by index of what the iterations left (axis), its original
+value (broadcast: writes of the body are dropped), what the last iteration left (carry) -/
+def scanFinalEntry {α : Type} [Inhabited α] (store final : Store α) (recs : List (Store α)) (ep : Entry × Prefix) :
+    Except Err (VarId × Arr α) :=
+  bindX (ep.2.at ep.1) fun a =>
+  match a with
+  | .axis k =>
+    bindX (mapX (fun (st : Store α) => st.getX ep.1.id) recs) fun vs =>
+    bindX (collectVal (.axis k) vs) fun v => .ok (ep.1.id, v)
+  | .bcast => bindX (store.getX ep.1.id) fun v => .ok (ep.1.id, v)
+  | .carry => bindX (final.getX ep.1.id) fun v => .ok (ep.1.id, v)
+
+/-- the array the loop starts to carry -/
+def initCarrySpec {α : Type} : List (Prefix × Arr α) → Option (Arr α)
+  | [] => none
+  | (.ax .carry, a) :: _ => some a
+  | _ :: rest => initCarrySpec rest
+
+/-- **the Python loop `nnx.scan` is to equal**, over `n` iterations in processing order (`reverse`): carry threaded,
+axis Variables sliced per iteration and re-stacked by index, broadcast Variables shared and left unchanged, results
+stacked by index along their out axes, the carry put back among the results -/
+def scanSpecN {α : Type} [Inhabited α] (n : Nat) (reverse : Bool) (ca : CarryArg) (cout : CarryPos)
+    (outPs : List Prefix) (body : Body α) (pas : List (Prefix × Arg α)) (store : Store α) :
+    Except Err (Store α × List (Out α)) :=
+  bindX (laxScanX n reverse (fun i => .ok i) (scanStepSpec body ca cout outPs store pas) (fun _ _ => true)
+    (initCarrySpec (arrArgs pas), store)) fun r =>
+  match r.2 with
+  | [] => .error (.body "EmptyLoop")
+  | _ :: _ =>
+    bindX (mapX (scanFinalEntry store r.1.2 (r.2.map (·.1))) (ownedAll pas [])) fun vals =>
+    bindX (mapX (collectOutAt (r.2.map (·.2))) ((List.range outPs.length).zip outPs)) fun outs =>
+    bindX (insertCarry cout ca r.1.1 outs) fun outs' =>
+    .ok (writeAll vals store, outs')
+
 end Flax.NnxLoop
